@@ -157,19 +157,11 @@ class ZemaxFileReader:
         if self._current_surf >= 0:
             self.data['surfaces'][self._current_surf] = self._current_surf_data
 
-        # sort and filter fields
-        unique_fields = set()
-        for i in range(min(len(self.data['fields']['x']),
-                           len(self.data['fields']['y']))):
-            pair = (self.data['fields']['x'][i], self.data['fields']['y'][i])
-            unique_fields.add(pair)
-
-        # Sort the unique field pairs based on the second element
-        sorted_fields = sorted(unique_fields, key=lambda x: x[1])
-
-        # Unzip the sorted pairs back into two lists for x, y fields
-        self.data['fields']['x'], \
-            self.data['fields']['y'] = zip(*sorted_fields)
+        # the field points, in the order written (XFLN / YFLN are already cut
+        # to the number of fields declared in the file)
+        num = min(len(self.data['fields']['x']), len(self.data['fields']['y']))
+        self.data['fields']['x'] = tuple(self.data['fields']['x'][:num])
+        self.data['fields']['y'] = tuple(self.data['fields']['y'][:num])
 
         # remove temporary file if it was created
         if self._is_url(self.source):
